@@ -1736,6 +1736,21 @@ func buildProjections(projected, att *expr.AttributeExpr, viewspkg string, scope
 	return projections
 }
 
+// nestedView returns the non default view explicitly set on the given view
+// attribute if any, the empty string otherwise.
+func nestedView(vatt *expr.AttributeExpr) string {
+	if v, ok := vatt.Meta.Last(expr.ViewMetaKey); ok && v != expr.DefaultView {
+		return v
+	}
+	return ""
+}
+
+// isResultType returns true if dt is a result type.
+func isResultType(dt expr.DataType) bool {
+	_, ok := dt.(*expr.ResultTypeExpr)
+	return ok
+}
+
 // buildValidations builds the data required to generate validations for the
 // projected types.
 func buildValidations(projected *expr.AttributeExpr, scope *codegen.NameScope) []*ValidateData {
@@ -1793,6 +1808,20 @@ func buildValidations(projected *expr.AttributeExpr, scope *codegen.NameScope) [
 								"FieldName":   codegen.GoifyAtt(attr, name, true),
 								"ValidateVar": "Validate" + scope.GoTypeName(attr) + codegen.Goify(vw, true),
 								"IsRequired":  rt.Attribute().IsRequired(name),
+							})
+						} else if arr := expr.AsArray(attr.Type); arr != nil && nestedView(vatt) != "" && isResultType(arr.ElemType.Type) {
+							// array of result types rendered using a non default
+							// view: validate the elements using that view. The
+							// array itself (required, length) is validated with
+							// the other attributes.
+							dup := *attr
+							dup.Type = &expr.Array{ElemType: &expr.AttributeExpr{Type: expr.Any}}
+							o.Set(name, &dup)
+							fields = append(fields, map[string]any{
+								"Name":        name,
+								"FieldName":   codegen.GoifyAtt(attr, name, true),
+								"ValidateVar": "Validate" + scope.GoTypeName(arr.ElemType) + codegen.Goify(nestedView(vatt), true),
+								"IsArray":     true,
 							})
 						} else {
 							o.Set(name, attr)
